@@ -89,6 +89,8 @@ func VH_LineTotal() {
 		line = "type=SYSCALL" + line + "audit(1.000:1): a=b"
 	case 3: // inside UNKNOWN[...]
 		line = "type=UNKNOWN[" + line + "] msg=audit(1.000:1): a=b"
+	case 4: // everything between "type=" and the header
+		line = "type=" + line + "audit(1.000:1): a=b"
 	}
 	m, err := ParseLogLine(line)
 	vAssert((err != nil) == (m == nil), "C05/error-and-message-disagree")
